@@ -48,8 +48,10 @@ theorem mh_endListen (d : MSlot) (x : Nat) : (d.endListen x).maxHandled = d.maxH
   simp only [MSlot.endListen]; split <;> rfl
 theorem mh_addListen (d : MSlot) (id : Nat) (ks : List Kind) (us : List Nat) : (d.addListen id ks us).maxHandled = d.maxHandled := by
   simp only [MSlot.addListen]; split <;> rfl
-theorem mh_changeSlot (k : Kind) (b : Bool) (d : MSlot) : (changeSlot k b d).maxHandled = d.maxHandled := by
-  simp only [changeSlot]; split <;> split <;> rfl
+theorem mh_changeSlot (k : Kind) (b mx : Bool) (d : MSlot) : (changeSlot k b mx d).maxHandled = d.maxHandled := by
+  simp only [changeSlot]
+  generalize (if mx = true then addNew d.rmMixed k else d.rmMixed.filter (· != k)) = rm
+  split <;> split <;> rfl
 
 theorem mh_foldl {α} (f : MSlot → α → MSlot) (hf : ∀ d a, (f d a).maxHandled = d.maxHandled) (l : List α) (d : MSlot) :
     (l.foldl f d).maxHandled = d.maxHandled := by
@@ -208,7 +210,7 @@ theorem maxHandled_step {m : MState} {t : Truth} (hA : Agrees m t) (r : Rec) (i 
     · rfl
     · split
       · rfl
-      · exact congrFun (mh_changeSlot _ _ _) key
+      · exact congrFun (mh_changeSlot _ _ _ _) key
   | tables =>
     refine same (by simp) (by simp) (by simp) ?_
     cases obs <;> try rfl
